@@ -5,6 +5,7 @@
    Nodes of a Tree / Proof are never nil here (Writer.Tree() shrinks nils away, Proof.UnmarshalJSON
    always builds BaseNode values); a non-empty node always has a (possibly zero-length) hash value. *)
 From Coq Require Import String List NArith ZArith Arith Bool PArith FMapPositive.
+From Coq Require Export Uint63.
 From MV Require Import Common.Cases Gen.C12.
 Import ListNotations.
 Open Scope list_scope.
@@ -267,17 +268,29 @@ Definition push_byte (p : positive) (b : N) : positive :=
   end.
 Definition pos_of_bytes (x : bytes) : positive := fold_left push_byte x 1%positive.
 
+(* byte strings in the case files: (length, big-endian words of 7 bytes) over primitive integers *)
+Definition bstr := (int * list int)%type.
+Definition byte_at (w : int) (j : nat) : N :=
+  Z.to_N (Uint63.to_Z (Uint63.land (Uint63.lsr w (Uint63.of_Z (Z.of_nat (8 * j)))) 255%uint63)).
+Definition word_bytes (k : nat) (w : int) : bytes := map (byte_at w) (rev (seq 0 k)).
+Fixpoint unb_words (n : nat) (ws : list int) : bytes :=
+  match ws with
+  | [] => []
+  | w :: r => if (n <=? 7)%nat then word_bytes n w else word_bytes 7 w ++ unb_words (n - 7) r
+  end.
+Definition unb (b : bstr) : bytes := unb_words (Z.to_nat (Uint63.to_Z (fst b))) (snd b).
+
 Definition htable := PositiveMap.t bytes.
-Definition tbl_of (l : list (string * string)) : htable :=
-  fold_left (fun m e => PositiveMap.add (pos_of_bytes (unhex (fst e))) (unhex (snd e)) m) l (PositiveMap.empty bytes).
+Definition tbl_of (l : list (bstr * bstr)) : htable :=
+  fold_left (fun m e => PositiveMap.add (pos_of_bytes (unb (fst e))) (unb (snd e)) m) l (PositiveMap.empty bytes).
 (* H given by the (input, output) pairs the harness recorded from the real hash function *)
 Definition Htbl (m : htable) (x : bytes) : bytes :=
   match PositiveMap.find (pos_of_bytes x) m with Some y => y | None => [] end.
 Definition in_tbl (m : htable) (x : bytes) : bool :=
   match PositiveMap.find (pos_of_bytes x) m with Some _ => true | None => false end.
 
-Definition rnode := (string * string * bool)%type.   (* hex key, hex hash, isempty *)
-Definition node_of (r : rnode) : node := let '(k, h, e) := r in mkNode (unhex k) (unhex h) e.
+Definition rnode := (bstr * bstr * bool)%type.   (* key, hash, isempty *)
+Definition node_of (r : rnode) : node := let '(k, h, e) := r in mkNode (unb k) (unb h) e.
 Definition node_eqb (a b : node) : bool :=
   bytes_eqb (nkey a) (nkey b) && bytes_eqb (nh a) (nh b) && Bool.eqb (nempty a) (nempty b).
 Definition nodes_eqb (a b : list node) : bool := list_eqb node_eqb a b.
@@ -298,21 +311,23 @@ Inductive case :=
 (* indexHeight i = h, children size i = ch, parent i = par *)
 | CArith (i size h : N) (ch : option (N * N)) (par : option N)
 (* Tree.IsValid of the tree = valid; for each (index, node, v): IsValid after Set(index, node) = v *)
-| CTree (tbl : list (string * string)) (nodes : list rnode) (valid : bool) (muts : list (N * rnode * bool))
+| CTree (tbl : list (bstr * bstr)) (nodes : list rnode) (valid : bool) (muts : list (N * rnode * bool))
 (* Writer over the keys -> Tree().Nodes() (None = error) *)
-| CGen (tbl : list (string * string)) (keys : list string) (res : option (list rnode))
+| CGen (tbl : list (bstr * bstr)) (keys : list bstr) (res : option (list rnode))
 (* ExtractProofMaterial *)
-| CExtract (nodes : list rnode) (key : string) (res : option (list rnode))
+| CExtract (nodes : list rnode) (key : bstr) (res : option (list rnode))
 (* Proof.IsValid = pvalid; Prove(key) = ok for each (key, ok); after replacing position j by node: Prove(key) = ok *)
-| CProof (tbl : list (string * string)) (pnodes : list rnode) (pvalid : bool)
-         (proves : list (string * bool)) (muts : list (N * rnode * string * bool)).
+| CProof (tbl : list (bstr * bstr)) (pnodes : list rnode) (pvalid : bool)
+         (proves : list (bstr * bool)) (muts : list (N * rnode * bstr * bool)).
 
 Definition check (c : case) : bool :=
   match c with
   | CArith i size h ch par =>
       N.eqb (go_index_height i) h && opt_pair_eqb (go_children size i) ch && option_eqb N.eqb (go_parent i) par
-      && opt_pair_eqb (nat_pair_to_N (children (N.to_nat size) (N.to_nat i))) ch
-      && option_eqb N.eqb (option_map N.of_nat (parent (N.to_nat i))) par
+      && (if (size <? 65536)%N && (i <? 65536)%N then   (* unary nat only for small indices *)
+            opt_pair_eqb (nat_pair_to_N (children (N.to_nat size) (N.to_nat i))) ch
+            && option_eqb N.eqb (option_map N.of_nat (parent (N.to_nat i))) par
+          else true)
   | CTree tbl nodes valid muts =>
       let m := tbl_of tbl in
       let t := map node_of nodes in
@@ -321,16 +336,16 @@ Definition check (c : case) : bool :=
       && forallb (fun mu => let '(i, r, v) := mu in one (replace_nth t (N.to_nat i) (node_of r)) v) muts
   | CGen tbl keys res =>
       let m := tbl_of tbl in
-      let g := generate (Htbl m) (map unhex keys) in
+      let g := generate (Htbl m) (map unb keys) in
       option_eqb nodes_eqb g (option_map (map node_of) res)
       && match g with Some t => forallb (in_tbl m) (tree_queries t) | None => true end
   | CExtract nodes key res =>
-      option_eqb nodes_eqb (extract (map node_of nodes) (unhex key)) (option_map (map node_of) res)
+      option_eqb nodes_eqb (extract (map node_of nodes) (unb key)) (option_map (map node_of) res)
   | CProof tbl pnodes pvalid proves muts =>
       let m := tbl_of tbl in
       let p := map node_of pnodes in
       let one p' k v := forallb (in_tbl m) (prove_queries p' k) && Bool.eqb (prove (Htbl m) p' k) v in
       Bool.eqb (proof_is_valid p) pvalid
-      && forallb (fun kv => one p (unhex (fst kv)) (snd kv)) proves
-      && forallb (fun mu => let '(j, r, k, v) := mu in one (replace_nth p (N.to_nat j) (node_of r)) (unhex k) v) muts
+      && forallb (fun kv => one p (unb (fst kv)) (snd kv)) proves
+      && forallb (fun mu => let '(j, r, k, v) := mu in one (replace_nth p (N.to_nat j) (node_of r)) (unb k) v) muts
   end.
